@@ -683,7 +683,7 @@ func init() {
 			th.goPanic("sync: unlock of unlocked mutex")
 		}
 		s.locked = false
-		th.yield(nil)
+		// no scheduling point after a release: the next visible operation of this thread is one
 		return nil
 	}
 	intrinsics["(*sync.Mutex).Lock"] = lock
@@ -711,7 +711,6 @@ func init() {
 			th.goPanic("sync: RUnlock of unlocked RWMutex")
 		}
 		s.readers--
-		th.yield(nil)
 		return nil
 	}
 	intrinsics["(*sync.WaitGroup).Add"] = func(th *Thread, fn *ssa.Function, args []Value) Value {
@@ -729,7 +728,6 @@ func init() {
 		if s.count < 0 {
 			th.goPanic("sync: negative WaitGroup counter")
 		}
-		th.yield(nil)
 		return nil
 	}
 	intrinsics["(*sync.WaitGroup).Wait"] = func(th *Thread, fn *ssa.Function, args []Value) Value {
